@@ -102,6 +102,11 @@ type serverParent interface {
 	logger.Writer
 }
 
+type serverPathEvent struct {
+	pa    defs.Path
+	ready bool
+}
+
 // Server is a HLS server.
 type Server struct {
 	Address         string
@@ -133,9 +138,11 @@ type Server struct {
 	httpServer *httpServer
 	muxers     map[string]*muxer
 
+	pathEventsMutex sync.Mutex
+	pathEvents      []serverPathEvent
+
 	// in
-	chPathReady       chan defs.Path
-	chPathNotReady    chan defs.Path
+	chPathEvent       chan struct{}
 	chGetMuxer        chan serverGetMuxerReq
 	chCloseMuxer      chan *muxer
 	chAPIMuxerList    chan serverAPIMuxersListReq
@@ -152,8 +159,7 @@ func (s *Server) Initialize() error {
 	s.ctx = ctx
 	s.ctxCancel = ctxCancel
 	s.muxers = make(map[string]*muxer)
-	s.chPathReady = make(chan defs.Path)
-	s.chPathNotReady = make(chan defs.Path)
+	s.chPathEvent = make(chan struct{}, 1)
 	s.chGetMuxer = make(chan serverGetMuxerReq)
 	s.chCloseMuxer = make(chan *muxer)
 	s.chAPIMuxerList = make(chan serverAPIMuxersListReq)
@@ -236,18 +242,28 @@ func (s *Server) run() {
 outer:
 	for {
 		select {
-		case pa := <-s.chPathReady:
-			if s.AlwaysRemux && !pa.SafeConf().SourceOnDemand {
-				if _, ok := s.muxers[pa.Name()]; !ok {
-					s.createMuxer(pa.Name(), "", "")
-				}
-			}
+		case <-s.chPathEvent:
+			s.pathEventsMutex.Lock()
+			events := s.pathEvents
+			s.pathEvents = nil
+			s.pathEventsMutex.Unlock()
 
-		case pa := <-s.chPathNotReady:
-			c, ok := s.muxers[pa.Name()]
-			if ok && c.remoteAddr == "" { // created with "always remux"
-				c.Close()
-				delete(s.muxers, pa.Name())
+			for _, ev := range events {
+				pa := ev.pa
+
+				if ev.ready {
+					if s.AlwaysRemux && !pa.SafeConf().SourceOnDemand {
+						if _, ok := s.muxers[pa.Name()]; !ok {
+							s.createMuxer(pa.Name(), "", "")
+						}
+					}
+				} else {
+					c, ok := s.muxers[pa.Name()]
+					if ok && c.remoteAddr == "" { // created with "always remux"
+						c.Close()
+						delete(s.muxers, pa.Name())
+					}
+				}
 			}
 
 		case req := <-s.chGetMuxer:
@@ -384,20 +400,27 @@ func (s *Server) getMuxer(req serverGetMuxerReq) (*muxer, error) {
 	}
 }
 
+// pushPathEvent never blocks: the path manager must not wait for the server routine,
+// that in turn may be waiting for a path or for a muxer that is waiting for the path manager.
+func (s *Server) pushPathEvent(ev serverPathEvent) {
+	s.pathEventsMutex.Lock()
+	s.pathEvents = append(s.pathEvents, ev)
+	s.pathEventsMutex.Unlock()
+
+	select {
+	case s.chPathEvent <- struct{}{}:
+	default:
+	}
+}
+
 // PathReady is called by pathManager.
 func (s *Server) PathReady(pa defs.Path) {
-	select {
-	case s.chPathReady <- pa:
-	case <-s.ctx.Done():
-	}
+	s.pushPathEvent(serverPathEvent{pa: pa, ready: true})
 }
 
 // PathNotReady is called by pathManager.
 func (s *Server) PathNotReady(pa defs.Path) {
-	select {
-	case s.chPathNotReady <- pa:
-	case <-s.ctx.Done():
-	}
+	s.pushPathEvent(serverPathEvent{pa: pa, ready: false})
 }
 
 // APIMuxersList implements defs.APIHLSServer.
